@@ -21,7 +21,7 @@ ASSUMPTIONS = ["permutations respect what Python itself requires (an alias after
                "hash seeds are sampled (3-4 per program), not enumerated"]
 COMPONENTS = {"real": ["twosigma.memento (all)", "fresh CPython interpreters with real hash randomisation seeds", "import system", "filesystem store on tmpfs"],
               "stub": ["generated user program", "uuid4, clock"]}
-REACH = ["programs_with_mutual_recursion", "programs_with_two_packages", "programs", "programs_with_set_constants", "second_node_calls", "nodes"]
+REACH = ["programs_with_lambda_helpers", "programs_with_declared_dependencies", "programs_with_mutual_recursion", "programs_with_two_packages", "programs", "programs_with_set_constants", "second_node_calls", "nodes"]
 
 
 def cases(tier, seed):
@@ -91,6 +91,10 @@ def execute(case):
                 stats["programs_with_two_packages"] = stats.get("programs_with_two_packages", 0) + 1
             if any(c.get("back") for n in p["nodes"] for c in n["calls"]):
                 stats["programs_with_mutual_recursion"] = stats.get("programs_with_mutual_recursion", 0) + 1
+            if any(c["form"] == "declared" for n in p["nodes"] for c in n["calls"]):
+                stats["programs_with_declared_dependencies"] = stats.get("programs_with_declared_dependencies", 0) + 1
+            if any(n.get("lam") for n in p["nodes"]):
+                stats["programs_with_lambda_helpers"] = stats.get("programs_with_lambda_helpers", 0) + 1
             if any(n["setc"] is not None for n in p["nodes"]):
                 stats["programs_with_set_constants"] = stats.get("programs_with_set_constants", 0) + 1
             v0 = rs[0]["versions"]
